@@ -236,8 +236,8 @@ class Program:
         m = re.match(r'^<(.*) as (.*)>::(\w+)$', c, re.S)
         if m:
             ty, tr, meth = m.groups()
-            from .srcinfo import _last_seg
-            ty = _last_seg(ty); tr = _last_seg(tr)
+            from .srcinfo import _last_seg, _trait_args
+            ty = _last_seg(ty); tr = _last_seg(tr) + _trait_args(tr)
             fl = self.by_trait.get((tr, ty, meth))
             if fl:
                 return fl[0]
@@ -289,6 +289,22 @@ class Program:
         return fl[0]
 
 
+def _peel_refs(f, k):
+    def h(ctx, args, callee):
+        out = []
+        for a in args:
+            for _ in range(k):
+                if isinstance(a, Ref):
+                    inner = ctx.project(a.cell.v, a.path)
+                    if isinstance(inner, Ref):
+                        a = inner
+                    else:
+                        break
+            out.append(a)
+        return ctx.call_fn(f, out)
+    return h
+
+
 class Exec:
     def __init__(self, prog, models, overrides=None, unwind=8, maxsteps=200000, solver_timeout_ms=20000):
         self.prog = prog
@@ -314,6 +330,12 @@ class Exec:
             f = self.prog.resolve(callee)
             if f is not None:
                 res = ('fn', f, f.name)
+                m = re.match(r'^<((?:&(?:mut )?)+)', norm)
+                if m:
+                    # blanket impls on references (`impl PartialEq<&B> for &A`, Display for &T ...): peel the extra
+                    # reference levels and call the impl of the referent
+                    k = m.group(1).count('&')
+                    res = ('model', _peel_refs(f, k), f.name + ' (through %d reference level(s))' % k)
         if res is None:
             for pat, fnc, name in self.models:
                 if pat.search(norm):
@@ -713,7 +735,7 @@ class Ctx:
         if k == 'alloc':
             return self.alloc_const(c[1], c[2])
         if k == 'named':
-            return self.named_const(c[1])
+            return self.named_const(c[1], frame)
         raise Unmodelled('const %r' % (c,))
 
     def alloc_const(self, alloc, ty):
@@ -736,8 +758,14 @@ class Ctx:
             return Str(bytes(data).decode('utf-8', 'replace'))
         return Ref(Cell(Bytes(bytes(data))))
 
-    def named_const(self, text):
+    def named_const(self, text, frame=None):
         t = text.strip()
+        m = re.search(r'::(promoted\[\d+\])$', t)
+        if m and frame is not None:
+            # a promoted constant belongs to the body that uses it
+            fl = self.prog.fns.get(frame['__fn'].name + '::' + m.group(1))
+            if fl:
+                return self.call_fn(fl[0], [])
         m = re.match(r'^(.*::promoted\[\d+\])$', t)
         if m:
             key = re.sub(r'<impl at [^>]*>', '*', mp.strip_generics(m.group(1)))
@@ -1025,6 +1053,11 @@ class Ctx:
                 if nxt is None:
                     raise Unmodelled('fallthrough in %s %s' % (fn.name, bb))
                 bb = nxt
+        except Unmodelled as e:
+            if not getattr(e, 'located', False):
+                e.located = True
+                e.args = ('%s [in %s %s]' % (e.args[0] if e.args else '', fn.name.split('>::')[-1], bb),)
+            raise
         finally:
             self.depth -= 1
 
